@@ -399,6 +399,10 @@ MemView(s) ==
 CheckTx(s, tx) ==
   LET r == Execute(MemView(s), tx, FALSE) IN [s |-> [s EXCEPT !.mem = MemOf(r.s)], resp |-> r.resp]
 
+\* a re-check (the request the mempool sends after a commit for every transaction still waiting) is answered without
+\* looking at the transaction
+Recheck(s, tx) == [s |-> s, resp |-> Resp(TRUE, tx, <<>>)]
+
 ---------------------------------------------------------------------------
 (* EndBlock *)
 
